@@ -395,6 +395,25 @@ Proof.
       cbn [length]. split; [lia|intros _; lia].
 Qed.
 
+Lemma word_step_len : forall off w r e r',
+  word_step is_alnum off w r = Ok (e, r') -> (length r' <= length r)%nat.
+Proof.
+  intros off w r e r' H. unfold word_step in H.
+  set (sr := match r with
+             | x :: r0 => if x =? ch_colon then span wordch r0 else ([], r)
+             | [] => ([], r)
+             end) in *.
+  assert (L : (length (snd sr) <= length r)%nat).
+  { unfold sr. destruct r as [|x r0]; [cbn; lia|]. destruct (x =? ch_colon); [|cbn; lia].
+    pose proof (span_snd_len wordch r0). cbn [length]. lia. }
+  match type of H with (do _ <- ?X; _) = _ => destruct X as [[rg|]| | |] end;
+    cbn [obind] in H; try discriminate H.
+  - inversion H; subst. exact L.
+  - match type of H with (do _ <- ?X; _) = _ => destruct X as [tr| | |] end;
+      cbn [obind] in H; try discriminate H.
+    inversion H; subst. lia.
+Qed.
+
 Lemma rcn_step_len : forall off c t e r,
   rcn_step is_alnum off c t = Ok (e, r) -> (length r <= length t)%nat.
 Proof.
@@ -404,10 +423,10 @@ Proof.
   destruct (c =? ch_lbrack).
   { apply scan_bracket_len in H as [_ H]. specialize (H ltac:(discriminate)). cbn [length] in H. lia. }
   destruct (wordch c) eqn:W.
-  - cbn [span] in H. rewrite W in H. cbn [fst snd] in H.
-    match type of H with (do _ <- ?X; _) = _ => destruct X as [tr| | |] end;
-      cbn [obind] in H; try discriminate H.
-    inversion H. subst. apply span_snd_len.
+  - cbn zeta in H. apply word_step_len in H.
+    assert (L : (length (snd (span wordch (c :: t))) <= length t)%nat).
+    { cbn [span]. rewrite W. cbn [snd]. apply span_snd_len. }
+    lia.
   - inversion H. subst. lia.
 Qed.
 
@@ -524,6 +543,78 @@ Proof.
   rewrite E4. rewrite column_number_to_name_is_letters by lia. eexists; reflexivity.
 Qed.
 
+Lemma owr_end_bounds : forall w k a i, owr_end w = Some (k, a, i) ->
+  (-1 <= i /\ i < (if k then 16384 else 1048576))%Z.
+Proof.
+  intros w k a i H. unfold owr_end in H.
+  set (body := if starts_dollar w then tl w else w) in *.
+  destruct (is_nil body); [discriminate H|].
+  destruct ((length body <=? 3)%nat && forallb is_alpha body) eqn:E1.
+  - apply andb_prop in E1 as [_ A].
+    pose proof (fold26_nonneg_alpha body 0%Z A ltac:(lia)) as P. unfold zf26 in P.
+    unfold ZCOLS in H.
+    match type of H with (if ?c then _ else _) = _ => destruct c eqn:E end; [|discriminate H].
+    inversion H; subst. lia.
+  - destruct ((length body <=? 7)%nat && negb (hd 0 body =? ch_0) && forallb is_digit body) eqn:E2;
+      [|discriminate H].
+    apply andb_prop in E2 as [_ D].
+    pose proof (fold10_nonneg body 0%Z D ltac:(lia)) as P. unfold zf10 in P.
+    unfold ZROWS in H.
+    match type of H with (if ?c then _ else _) = _ => destruct c eqn:E end; [|discriminate H].
+    inversion H; subst. lia.
+Qed.
+
+Lemma owr_one_total : forall k a i d, exists o,
+  owr_one k a i d (if k then ZCOLS else ZROWS) = Ok o.
+Proof.
+  intros k a i d. unfold owr_one.
+  destruct (if a then Some i else checked_add_i64 i d) as [j|]; [|eexists; reflexivity].
+  destruct (negb ((0 <=? j)%Z && (j <? (if k then ZCOLS else ZROWS))%Z)) eqn:E; [eexists; reflexivity|].
+  destruct k.
+  - unfold ZCOLS in E.
+    assert (E4 : as_u32 j = Z.to_N j) by (unfold as_u32; rewrite Z.mod_small by lia; reflexivity).
+    rewrite E4. rewrite column_number_to_name_is_letters by lia. eexists; reflexivity.
+  - eexists; reflexivity.
+Qed.
+
+Lemma owr_total : forall a b off, exists o, offset_whole_range a b off = Ok o.
+Proof.
+  intros a b off. unfold offset_whole_range.
+  destruct (owr_end a) as [[[k1 a1] i1]|]; [|eexists; reflexivity].
+  destruct (owr_end b) as [[[k2 a2] i2]|]; [|eexists; reflexivity].
+  destruct (negb (Bool.eqb k1 k2)); [eexists; reflexivity|].
+  destruct (owr_one_total k1 a1 i1 (if k1 then snd off else fst off)) as (o1 & E1). rewrite E1.
+  cbn [obind]. destruct o1 as [t1|]; [|eexists; reflexivity].
+  destruct (owr_one_total k1 a2 i2 (if k1 then snd off else fst off)) as (o2 & E2). rewrite E2.
+  eexists; reflexivity.
+Qed.
+
+Lemma word_step_total : forall off w r, off_small off -> exists er, word_step is_alnum off w r = Ok er.
+Proof.
+  intros off w r Hoff. unfold word_step.
+  set (sr := match r with
+             | x :: r0 => if x =? ch_colon then span wordch r0 else ([], r)
+             | [] => ([], r)
+             end).
+  destruct (owr_total w (fst sr) off) as (ow & Ew).
+  destruct (ocn_total w off Hoff) as (o & Ho).
+  assert (W : exists wh, (if is_nil (fst sr) then Ok None
+               else match snd sr with
+                    | x :: _ => if (x =? ch_lparen) || (x =? ch_bang) then Ok None
+                                else offset_whole_range w (fst sr) off
+                    | [] => offset_whole_range w (fst sr) off
+                    end) = Ok wh).
+  { destruct (is_nil (fst sr)); [eexists; reflexivity|].
+    destruct (snd sr) as [|x r3]; [rewrite Ew; eexists; reflexivity|].
+    destruct ((x =? ch_lparen) || (x =? ch_bang)); [eexists; reflexivity|rewrite Ew; eexists; reflexivity]. }
+  destruct W as (wh & EW). rewrite EW. cbn [obind].
+  destruct wh as [rg|]; [eexists; reflexivity|].
+  destruct r as [|x r0]; [rewrite Ho; eexists; reflexivity|].
+  destruct ((x =? ch_lparen) || (x =? ch_bang)); [eexists; reflexivity|].
+  match goal with |- context[if ?c then _ else _] => destruct c end; [eexists; reflexivity|].
+  rewrite Ho. eexists; reflexivity.
+Qed.
+
 Lemma rcn_step_total : forall off c t, off_small off ->
   exists er, rcn_step is_alnum off c t = Ok er.
 Proof.
@@ -534,12 +625,7 @@ Proof.
     destruct (scan_bracket_ok t (0 + 1) ltac:(lia)) as (er & Her). rewrite Her.
     eexists; reflexivity. }
   destruct (wordch c); [|eexists; reflexivity].
-  set (wr := span wordch (c :: t)).
-  destruct (ocn_total (fst wr) off Hoff) as (o & Ho).
-  destruct (snd wr) as [|x r'].
-  - rewrite Ho. eexists; reflexivity.
-  - destruct ((x =? ch_lparen) || (x =? ch_bang)); [eexists; reflexivity|].
-    rewrite Ho. eexists; reflexivity.
+  cbn zeta. apply word_step_total. exact Hoff.
 Qed.
 
 Lemma run_total : forall off, off_small off ->
@@ -691,37 +777,148 @@ Definition sep_start (s : list N) : Prop :=
 Definition next_call (s : list N) : bool :=
   match s with x :: _ => (x =? ch_lparen) || (x =? ch_bang) | [] => false end.
 
+Lemma sep_start_head_fails : forall s, sep_start s -> head_fails wordch s.
+Proof. intros [|c s] H; [exact I|]. exact (proj1 H). Qed.
+
+(* the ':' look-ahead of the word branch has no effect: no word follows the ':', or that word
+   is not followed by '!' and the two words are not the ends of a whole range *)
+Definition bang_head (r : list N) : bool := match r with y :: _ => y =? ch_bang | [] => false end.
+Definition colon_inert (w r : list N) : Prop :=
+  match r with
+  | x :: r' =>
+      (x =? ch_colon) = true ->
+      fst (span wordch r') = [] \/
+      (bang_head (snd (span wordch r')) = false /\
+       (owr_end w = None \/ owr_end (fst (span wordch r')) = None))
+  | [] => True
+  end.
+
+Lemma owr_none_l : forall w v off, owr_end w = None -> offset_whole_range w v off = Ok None.
+Proof. intros w v off H. unfold offset_whole_range. rewrite H. reflexivity. Qed.
+Lemma owr_none_r : forall w v off, owr_end v = None -> offset_whole_range w v off = Ok None.
+Proof.
+  intros w v off H. unfold offset_whole_range. rewrite H.
+  destruct (owr_end w) as [[[k a] i]|]; reflexivity.
+Qed.
+
+Lemma word_step_old : forall off w r, colon_inert w r ->
+  word_step is_alnum off w r =
+  do tr <- (if next_call r then Ok None else offset_cell_name w off);
+  Ok (match tr with Some nm => nm | None => w end, r).
+Proof.
+  intros off w r H. unfold word_step, next_call. destruct r as [|x r']; [reflexivity|].
+  cbn [colon_inert] in H. destruct (x =? ch_colon) eqn:EC.
+  - apply N.eqb_eq in EC as EC'. subst x. specialize (H eq_refl).
+    change ((ch_colon =? ch_lparen) || (ch_colon =? ch_bang)) with false. cbn iota.
+    destruct H as [H|[Hb H]].
+    + rewrite H. cbn [is_nil obind nonempty negb andb]. reflexivity.
+    + fold (bang_head (snd (span wordch r'))). rewrite Hb.
+      assert (W : (if is_nil (fst (span wordch r')) then Ok None
+                   else match snd (span wordch r') with
+                        | x :: _ => if (x =? ch_lparen) || (x =? ch_bang) then Ok None
+                                    else offset_whole_range w (fst (span wordch r')) off
+                        | [] => offset_whole_range w (fst (span wordch r')) off
+                        end) = Ok None).
+      { destruct (is_nil (fst (span wordch r'))); [reflexivity|].
+        assert (O : offset_whole_range w (fst (span wordch r')) off = Ok None)
+          by (destruct H as [H|H]; [apply owr_none_l|apply owr_none_r]; exact H).
+        rewrite O. destruct (snd (span wordch r')) as [|y r3]; [reflexivity|].
+        destruct ((y =? ch_lparen) || (y =? ch_bang)); reflexivity. }
+      rewrite W. cbn [obind]. rewrite !andb_false_r. reflexivity.
+  - cbn [fst snd is_nil obind andb]. reflexivity.
+Qed.
+
 Lemma run_word : forall off w s res,
-  w <> [] -> forallb wordch w = true -> head_fails wordch s ->
+  w <> [] -> forallb wordch w = true -> head_fails wordch s -> colon_inert w s ->
   run off (w ++ s) res =
   do tr <- (if next_call s then Ok None else offset_cell_name w off);
   run off s (res ++ match tr with Some nm => nm | None => w end).
 Proof.
-  intros off w s res Hne Hw Hs. destruct w as [|c w']; [contradiction|].
+  intros off w s res Hne Hw Hs Hc0. destruct w as [|c w']; [contradiction|].
   cbn [app]. rewrite run_cons. unfold rcn_step.
   cbn [forallb] in Hw. apply andb_prop in Hw as [Hc Hw'].
   destruct (wordch_not_special c Hc) as (E1 & E2 & E3). rewrite E1, E2, E3, Hc. cbn [orb].
-  change (c :: w' ++ s) with ((c :: w') ++ s).
+  change (c :: w' ++ s) with ((c :: w') ++ s). cbn zeta.
   rewrite span_app; [|cbn [forallb]; rewrite Hc, Hw'; reflexivity|exact Hs]. cbn [fst snd].
-  unfold next_call. destruct s as [|x s'].
-  - destruct (offset_cell_name (c :: w') off) as [tr| | |]; reflexivity.
-  - destruct ((x =? ch_lparen) || (x =? ch_bang)); [reflexivity|].
-    destruct (offset_cell_name (c :: w') off) as [tr| | |]; reflexivity.
+  rewrite (word_step_old off (c :: w') s Hc0).
+  destruct (if next_call s then Ok None else offset_cell_name (c :: w') off) as [tr| | |]; reflexivity.
 Qed.
+
+(* heads that are not ':' *)
+Definition no_colon (s : list N) : Prop :=
+  match s with x :: _ => (x =? ch_colon) = false | [] => True end.
+Lemma no_colon_inert : forall w s, no_colon s -> colon_inert w s.
+Proof. intros w [|x s] H; [exact I|]. cbn in *. intros C. rewrite H in C. discriminate C. Qed.
 
 (* a word that is reproduced unchanged *)
 Lemma run_word_inert : forall off w s res,
   w <> [] -> forallb wordch w = true -> head_fails wordch s ->
-  (next_call s = true \/ ocn_parse w = None) ->
+  (next_call s = true \/ ocn_parse w = None) -> colon_inert w s ->
   run off (w ++ s) res = run off s (res ++ w).
 Proof.
-  intros off w s res Hne Hw Hs H. rewrite run_word by assumption.
+  intros off w s res Hne Hw Hs H Hc. rewrite run_word by assumption.
   destruct (next_call s); [reflexivity|]. destruct H as [H|H]; [discriminate H|].
   unfold offset_cell_name. rewrite H. reflexivity.
 Qed.
 
-Lemma sep_start_head_fails : forall s, sep_start s -> head_fails wordch s.
-Proof. intros [|c s] H; [exact I|]. exact (proj1 H). Qed.
+(* the first name of a 3-D sheet prefix  first:last!  is copied, whatever it looks like *)
+Lemma run_word_sheet3d : forall off w v s res,
+  w <> [] -> forallb wordch w = true -> v <> [] -> forallb wordch v = true ->
+  run off (w ++ ch_colon :: v ++ ch_bang :: s) res = run off (ch_colon :: v ++ ch_bang :: s) (res ++ w).
+Proof.
+  intros off w v s res Hne Hw Hv Wv. destruct w as [|c w']; [contradiction|].
+  cbn [app]. rewrite run_cons. unfold rcn_step.
+  cbn [forallb] in Hw. apply andb_prop in Hw as [Hc Hw'].
+  destruct (wordch_not_special c Hc) as (E1 & E2 & E3). rewrite E1, E2, E3, Hc. cbn [orb].
+  change (c :: w' ++ ch_colon :: v ++ ch_bang :: s) with ((c :: w') ++ ch_colon :: v ++ ch_bang :: s).
+  cbn zeta. rewrite span_app; [|cbn [forallb]; rewrite Hc, Hw'; reflexivity|].
+  2:{ cbn. rewrite wordch_ascii by reflexivity. reflexivity. }
+  cbn [fst snd]. unfold word_step. rewrite N.eqb_refl.
+  rewrite (span_app wordch v (ch_bang :: s) Wv); [|cbn; rewrite wordch_ascii by reflexivity; reflexivity].
+  cbn [fst snd]. destruct v as [|y v']; [contradiction|]. cbn [is_nil nonempty negb].
+  change ((ch_bang =? ch_lparen) || (ch_bang =? ch_bang)) with true. cbn iota. cbn [obind].
+  change ((ch_colon =? ch_lparen) || (ch_colon =? ch_bang)) with false. cbn iota.
+  rewrite N.eqb_refl. cbn [andb obind fst snd]. reflexivity.
+Qed.
+
+(* a word, ':' and a second word that is not followed by '(' or '!': the whole-range helper
+   decides; when it declines, the first word is handled as usual *)
+Lemma run_word_range : forall off w v s res,
+  w <> [] -> forallb wordch w = true -> v <> [] -> forallb wordch v = true -> sep_start s ->
+  run off (w ++ ch_colon :: v ++ s) res =
+  do whole <- offset_whole_range w v off;
+  match whole with
+  | Some t => run off s (res ++ t)
+  | None => do tr <- offset_cell_name w off;
+            run off (ch_colon :: v ++ s) (res ++ match tr with Some nm => nm | None => w end)
+  end.
+Proof.
+  intros off w v s res Hne Hw Hv Wv Hs. destruct w as [|c w']; [contradiction|].
+  cbn [app]. rewrite run_cons. unfold rcn_step.
+  cbn [forallb] in Hw. apply andb_prop in Hw as [Hc Hw'].
+  destruct (wordch_not_special c Hc) as (E1 & E2 & E3). rewrite E1, E2, E3, Hc. cbn [orb].
+  change (c :: w' ++ ch_colon :: v ++ s) with ((c :: w') ++ ch_colon :: v ++ s).
+  cbn zeta. rewrite span_app; [|cbn [forallb]; rewrite Hc, Hw'; reflexivity|].
+  2:{ cbn. rewrite wordch_ascii by reflexivity. reflexivity. }
+  cbn [fst snd]. unfold word_step. rewrite N.eqb_refl.
+  rewrite (span_app wordch v s Wv) by (apply sep_start_head_fails; exact Hs).
+  cbn [fst snd]. destruct v as [|y v'] eqn:Ev; [contradiction|]. cbn [is_nil nonempty negb].
+  rewrite <- Ev in *.
+  assert (W : match s with
+              | x :: _ => if (x =? ch_lparen) || (x =? ch_bang) then Ok None
+                          else offset_whole_range (c :: w') v off
+              | [] => offset_whole_range (c :: w') v off
+              end = offset_whole_range (c :: w') v off).
+  { destruct s as [|x s']; [reflexivity|]. destruct Hs as (_ & H1 & H2).
+    apply N.eqb_neq in H1, H2. rewrite H1, H2. reflexivity. }
+  rewrite W. destruct (offset_whole_range (c :: w') v off) as [[t|]| | |]; cbn [obind]; try reflexivity.
+  change ((ch_colon =? ch_lparen) || (ch_colon =? ch_bang)) with false. cbn iota.
+  assert (B : bang_head s = false).
+  { destruct s as [|x s']; [reflexivity|]. destruct Hs as (_ & _ & H2). cbn. apply N.eqb_neq. exact H2. }
+  fold (bang_head s). rewrite B, !andb_false_r.
+  destruct (offset_cell_name (c :: w') off) as [tr| | |]; reflexivity.
+Qed.
+
 Lemma sep_start_next_call : forall s, sep_start s -> next_call s = false.
 Proof.
   intros [|c s] H; [reflexivity|]. destruct H as (_ & H1 & H2). cbn.
@@ -914,16 +1111,198 @@ Proof. intros [|x l] H; [discriminate H|discriminate]. Qed.
 Ltac lnorm := repeat (progress (rewrite <- ?app_assoc; cbn [app])); reflexivity.
 
 (* ------------------------------------------------------------------ one token *)
-Definition no3d (t : token) : bool :=
-  match t with TSheetRange n1 _ => negb (is_cell_name n1) | _ => true end.
+(* ------------------------------------------------------------------ the ':' conditions of the grammar *)
+Lemma span_ext : forall (p q : N -> bool) l, (forall c, p c = q c) -> span p l = span q l.
+Proof.
+  intros p q l H. induction l as [|c t IH]; [reflexivity|]. cbn [span]. rewrite <- H, IH. reflexivity.
+Qed.
+Lemma span_word_char : forall l, span (word_char is_alnum) l = span wordch l.
+Proof. intros l. apply span_ext. exact word_char_eq. Qed.
+
+Lemma last_word_app : forall v u, forallb wordch u = true -> head_fails wordch (rev v) ->
+  last_word is_alnum (v ++ u) = u.
+Proof.
+  intros v u Hu Hv. unfold last_word. rewrite span_word_char, rev_app_distr.
+  rewrite span_app; [cbn [fst]; apply rev_involutive| |exact Hv].
+  rewrite forallb_forall in *. intros x Hx. apply Hu. apply in_rev. exact Hx.
+Qed.
+
+Lemma owr_end_range_end : forall w x, owr_end w = Some x -> is_range_end w = true.
+Proof.
+  intros w x H. unfold owr_end in H. unfold is_range_end.
+  set (body := if starts_dollar w then tl w else w) in *.
+  unfold nonempty. destruct (is_nil body); [discriminate H|]. cbn [negb andb].
+  destruct ((length body <=? 3)%nat && forallb is_alpha body); [reflexivity|]. cbn [orb].
+  destruct ((length body <=? 7)%nat && negb (hd 0 body =? ch_0) && forallb is_digit body) eqn:E;
+    [|discriminate H].
+  apply andb_prop in E as [E D]. apply andb_prop in E as [L _]. rewrite L, D. reflexivity.
+Qed.
+
+Lemma colon_free_inert : forall w s, w <> [] -> colon_free is_alnum w s = true -> colon_inert w s.
+Proof.
+  intros w s Hw H. destruct s as [|x s']; [exact I|]. cbn [colon_free colon_inert] in *.
+  intros C. rewrite C in H. rewrite span_word_char in H.
+  destruct w as [|c w']; [contradiction|]. cbn [is_nil orb] in H.
+  destruct (fst (span wordch s')) as [|y v'] eqn:Ev; [left; reflexivity|right].
+  cbn [is_nil orb] in H. apply andb_prop in H as [Hb Hr]. fold (bang_head (snd (span wordch s'))) in Hb.
+  apply negb_true_iff in Hb, Hr. split; [exact Hb|].
+  destruct (owr_end (c :: w')) as [x1|] eqn:E1; [|left; reflexivity]. right.
+  destruct (owr_end (y :: v')) as [x2|] eqn:E2; [|reflexivity].
+  rewrite (owr_end_range_end _ _ E1), (owr_end_range_end _ _ E2) in Hr. discriminate Hr.
+Qed.
+
+(* whole-range ends of the grammar *)
+Lemma dollar_strip : forall a l, starts_dollar l = false ->
+  (if starts_dollar (dollar a ++ l) then tl (dollar a ++ l) else dollar a ++ l) = l /\
+  starts_dollar (dollar a ++ l) = a.
+Proof.
+  intros a l H. destruct a; cbn [dollar app].
+  - cbn [starts_dollar]. rewrite N.eqb_refl. split; reflexivity.
+  - rewrite H. split; reflexivity.
+Qed.
+Lemma dec_head_not_dollar : forall n, starts_dollar (dec n) = false.
+Proof.
+  intros n. destruct (dec_head n) as (d & l & E & Hd). rewrite E. cbn.
+  apply N.eqb_neq. unfold is_digit, ch_0, ch_9 in Hd. unfold ch_dollar. lia.
+Qed.
+
+Lemma owr_end_letters : forall a c, c < 16384 ->
+  owr_end (dollar a ++ letters c) = Some (true, a, Z.of_N c).
+Proof.
+  intros a c Hc. unfold owr_end.
+  destruct (dollar_strip a (letters c) (letters_head_not_dollar c)) as [E1 E2]. rewrite E1, E2.
+  destruct (letters c) as [|x l] eqn:El; [exfalso; exact (letters_nonempty c El)|]. rewrite <- El.
+  replace (is_nil (letters c)) with false by (rewrite El; reflexivity).
+  pose proof (letters_len3 c Hc) as L3. apply Nat.leb_le in L3. rewrite L3, letters_all_alpha. cbn [andb].
+  change (fold_left (fun (a0 : Z) (c0 : N) => (a0 * 26 + (Z.of_N (to_upper c0) - 65 + 1))%Z) (letters c) 0%Z)
+    with (fold_left zf26 (letters c) 0%Z).
+  rewrite zcol_of by apply letters_all_alpha. rewrite letters_map_upper, col1_of_letters_letters.
+  unfold ZCOLS. destruct (Z.of_N (c + 1) - 1 <? 16384)%Z eqn:E; [|lia].
+  replace (Z.of_N (c + 1) - 1)%Z with (Z.of_N c) by lia. reflexivity.
+Qed.
+
+Lemma owr_end_dec : forall a r, r < 1048576 ->
+  owr_end (dollar a ++ dec (r + 1)) = Some (false, a, Z.of_N r).
+Proof.
+  intros a r Hr. unfold owr_end.
+  destruct (dollar_strip a (dec (r + 1)) (dec_head_not_dollar (r + 1))) as [E1 E2]. rewrite E1, E2.
+  destruct (dec_head (r + 1)) as (d & l & Ed & Hd).
+  replace (is_nil (dec (r + 1))) with false by (rewrite Ed; reflexivity).
+  replace (forallb is_alpha (dec (r + 1))) with false
+    by (rewrite Ed; cbn [forallb]; rewrite (digit_not_alpha d Hd); reflexivity).
+  rewrite andb_false_r.
+  pose proof (dec_len7 (r + 1) ltac:(lia)) as L7. apply Nat.leb_le in L7. rewrite L7, dec_all_digit.
+  destruct (hd 0 (dec (r + 1)) =? ch_0) eqn:H0.
+  { apply N.eqb_eq in H0. exfalso. apply (dec_head_nonzero (r + 1)); [lia|exact H0]. }
+  cbn [negb andb].
+  change (fold_left (fun (a0 : Z) (c0 : N) => (a0 * 10 + (Z.of_N c0 - 48))%Z) (dec (r + 1)) 0%Z)
+    with (fold_left zf10 (dec (r + 1)) 0%Z).
+  rewrite zrow_of by apply dec_all_digit. rewrite undec_dec.
+  unfold ZROWS. destruct (Z.of_N (r + 1) - 1 <? 1048576)%Z eqn:E; [|lia].
+  replace (Z.of_N (r + 1) - 1)%Z with (Z.of_N r) by lia. reflexivity.
+Qed.
+
+(* one end after the move: the text of the moved end, or None when it leaves the sheet *)
+Lemma owr_one_col : forall a c d, c < 16384 -> (-16384 < d < 16384)%Z ->
+  owr_one true a (Z.of_N c) d ZCOLS
+  = Ok (if comp_in_range a c d MAX_COLUMNS then Some (dollar a ++ letters (move a c d)) else None).
+Proof.
+  intros a c d Hc Hd. unfold owr_one, comp_in_range, move, MAX_COLUMNS, ZCOLS, checked_add_i64, I64MIN, I64MAX.
+  change (Z.of_N 16384) with 16384%Z.
+  destruct a; cbn [orb].
+  - replace (c <? 16384) with true by lia. replace (negb ((0 <=? Z.of_N c)%Z && (Z.of_N c <? 16384)%Z)) with false by lia.
+    assert (E4 : as_u32 (Z.of_N c) = c) by (unfold as_u32; rewrite Z.mod_small by lia; lia).
+    rewrite E4, column_number_to_name_is_letters by lia. reflexivity.
+  - replace ((-9223372036854775808 <=? Z.of_N c + d)%Z && (Z.of_N c + d <=? 9223372036854775807)%Z) with true by lia.
+    replace (c <? 16384) with true by lia. cbn [andb].
+    destruct ((0 <=? Z.of_N c + d)%Z && (Z.of_N c + d <? 16384)%Z) eqn:E; cbn [negb]; [|reflexivity].
+    assert (E4 : as_u32 (Z.of_N c + d) = Z.to_N (Z.of_N c + d)) by (unfold as_u32; rewrite Z.mod_small by lia; reflexivity).
+    rewrite E4, column_number_to_name_is_letters by lia. reflexivity.
+Qed.
+
+Lemma owr_one_row : forall a r d, r < 1048576 -> (-1048576 < d < 1048576)%Z ->
+  owr_one false a (Z.of_N r) d ZROWS
+  = Ok (if comp_in_range a r d MAX_ROWS then Some (dollar a ++ dec (move a r d + 1)) else None).
+Proof.
+  intros a r d Hr Hd. unfold owr_one, comp_in_range, move, MAX_ROWS, ZROWS, checked_add_i64, I64MIN, I64MAX, i64_to_string.
+  change (Z.of_N 1048576) with 1048576%Z.
+  destruct a; cbn [orb].
+  - replace (r <? 1048576) with true by lia. replace (negb ((0 <=? Z.of_N r)%Z && (Z.of_N r <? 1048576)%Z)) with false by lia.
+    cbn [obind]. destruct (Z.of_N r + 1 <? 0)%Z eqn:E; [lia|].
+    replace (Z.to_N (Z.of_N r + 1)) with (r + 1) by lia. reflexivity.
+  - replace ((-9223372036854775808 <=? Z.of_N r + d)%Z && (Z.of_N r + d <=? 9223372036854775807)%Z) with true by lia.
+    replace (r <? 1048576) with true by lia. cbn [andb].
+    destruct ((0 <=? Z.of_N r + d)%Z && (Z.of_N r + d <? 1048576)%Z) eqn:E; cbn [negb]; [|reflexivity].
+    cbn [obind]. destruct (Z.of_N r + d + 1 <? 0)%Z eqn:E5; [lia|].
+    replace (Z.to_N (Z.of_N r + d + 1)) with (Z.to_N (Z.of_N r + d) + 1) by lia. reflexivity.
+Qed.
 
 Section Token.
 Variable off : Z * Z.
 Hypothesis Hoff : off_ok off = true.
 
+(* what must follow a token that ends with a word *)
+Definition follow_ok (u s : list N) : Prop :=
+  sep_start s /\ colon_free is_alnum (last_word is_alnum u) s = true.
+
+Lemma follow_inert : forall v u s,
+  u <> [] -> forallb wordch u = true -> head_fails wordch (rev v) ->
+  (ends_word is_alnum (v ++ u) = true -> follow_ok (v ++ u) s) ->
+  sep_start s /\ colon_inert u s.
+Proof.
+  intros v u s Hne Hu Hv H. destruct (H (ends_word_app v u Hne Hu)) as [Hsep Hc].
+  split; [exact Hsep|]. rewrite (last_word_app v u Hu Hv) in Hc.
+  apply colon_free_inert; assumption.
+Qed.
+
+Lemma owr_colrange : forall a1 c1 a2 c2, c1 < 16384 -> c2 < 16384 ->
+  offset_whole_range (dollar a1 ++ letters c1) (dollar a2 ++ letters c2) off
+  = Ok (if tok_in_range off (TColRange a1 c1 a2 c2)
+        then Some (render (translate off (TColRange a1 c1 a2 c2))) else None).
+Proof.
+  intros a1 c1 a2 c2 H1 H2. unfold offset_whole_range.
+  rewrite !owr_end_letters by assumption. cbn [Bool.eqb negb].
+  destruct off as [dr dc]. unfold off_ok, MAX_ROWS, MAX_COLUMNS in Hoff. cbn [fst snd] in *.
+  rewrite !owr_one_col by (try assumption; lia). cbn [obind tok_in_range snd].
+  destruct (comp_in_range a1 c1 dc MAX_COLUMNS); [|reflexivity].
+  cbn [obind]. destruct (comp_in_range a2 c2 dc MAX_COLUMNS); [|reflexivity].
+  cbn [andb translate render snd]. do 2 f_equal. rewrite <- !app_assoc. reflexivity.
+Qed.
+
+Lemma owr_rowrange : forall a1 r1 a2 r2, r1 < 1048576 -> r2 < 1048576 ->
+  offset_whole_range (dollar a1 ++ dec (r1 + 1)) (dollar a2 ++ dec (r2 + 1)) off
+  = Ok (if tok_in_range off (TRowRange a1 r1 a2 r2)
+        then Some (render (translate off (TRowRange a1 r1 a2 r2))) else None).
+Proof.
+  intros a1 r1 a2 r2 H1 H2. unfold offset_whole_range.
+  rewrite !owr_end_dec by assumption. cbn [Bool.eqb negb].
+  destruct off as [dr dc]. unfold off_ok, MAX_ROWS, MAX_COLUMNS in Hoff. cbn [fst snd] in *.
+  rewrite !owr_one_row by (try assumption; lia). cbn [obind tok_in_range fst].
+  destruct (comp_in_range a1 r1 dr MAX_ROWS); [|reflexivity].
+  cbn [obind]. destruct (comp_in_range a2 r2 dr MAX_ROWS); [|reflexivity].
+  cbn [andb translate render fst]. do 2 f_equal. rewrite <- !app_assoc. reflexivity.
+Qed.
+
+(* word ':' word, both inert for offset_cell_name: translated as a whole range or copied *)
+Lemma tok_range : forall w1 w2 s res (inr : bool) (moved : list N),
+  w1 <> [] -> forallb wordch w1 = true -> ocn_parse w1 = None ->
+  w2 <> [] -> forallb wordch w2 = true -> ocn_parse w2 = None ->
+  offset_whole_range w1 w2 off = Ok (if inr then Some moved else None) ->
+  sep_start s -> colon_inert w2 s ->
+  run off (w1 ++ ch_colon :: w2 ++ s) res
+  = run off s (res ++ (if inr then moved else w1 ++ ch_colon :: w2)).
+Proof.
+  intros w1 w2 s res inr moved N1 W1 P1 N2 W2 P2 Ho Hs Hc.
+  rewrite run_word_range by assumption. rewrite Ho. cbn [obind]. destruct inr; [reflexivity|].
+  unfold offset_cell_name. rewrite P1. cbn [obind].
+  rewrite run_other by plain_tac.
+  rewrite run_word_inert; [|exact N2|exact W2|apply sep_start_head_fails; exact Hs|right; exact P2|exact Hc].
+  f_equal. lnorm.
+Qed.
+
 Lemma tok_ref : forall ca c ra r s res,
   tok_valid is_alnum (TRef ca c ra r) = true ->
-  (ends_word is_alnum (render (TRef ca c ra r)) = true -> sep_start s) ->
+  (ends_word is_alnum (render (TRef ca c ra r)) = true -> follow_ok (render (TRef ca c ra r)) s) ->
   run off (render (TRef ca c ra r) ++ s) res
   = run off s (res ++ render (translate_clip off (TRef ca c ra r))).
 Proof.
@@ -934,79 +1313,69 @@ Proof.
   { rewrite render_ref_eq, !forallb_app, dollar_word, letters_word, dollar_word, dec_word. reflexivity. }
   assert (Hne : render_ref ca c ra r <> []).
   { rewrite render_ref_eq. do 3 apply app_nonempty_r. apply dec_nonempty. }
-  assert (Hsep : sep_start s).
-  { apply Hs. rewrite render_ref_eq, !app_assoc. apply ends_word_app; [apply dec_nonempty|apply dec_word]. }
+  destruct (follow_inert [] (render_ref ca c ra r) s Hne Hw I Hs) as [Hsep Hci].
   rewrite run_word by (try assumption; apply sep_start_head_fails; exact Hsep).
   rewrite (sep_start_next_call s Hsep). unfold offset_cell_name.
   rewrite ocn_parse_ref by assumption. rewrite ocn_apply_ref by assumption. cbn [obind].
   unfold translate_clip. destruct (tok_in_range off (TRef ca c ra r)); reflexivity.
 Qed.
 
-(* a token whose text is: inert word, separator char, inert word *)
-Lemma tok_word_sep_word : forall w1 x w2 s res,
-  w1 <> [] -> forallb wordch w1 = true -> ocn_parse w1 = None ->
-  plain_char x -> x <> ch_lparen -> x <> ch_bang ->
-  w2 <> [] -> forallb wordch w2 = true -> ocn_parse w2 = None ->
-  sep_start s ->
-  run off (w1 ++ [x] ++ w2 ++ s) res = run off s (res ++ w1 ++ [x] ++ w2).
-Proof.
-  intros w1 x w2 s res N1 W1 P1 Hx Hx1 Hx2 N2 W2 P2 Hs.
-  rewrite run_word_inert; try assumption.
-  - cbn [app]. rewrite run_other by exact Hx.
-    rewrite run_word_inert; try assumption.
-    + f_equal. rewrite <- !app_assoc. reflexivity.
-    + apply sep_start_head_fails. exact Hs.
-    + right. exact P2.
-  - cbn. exact (proj1 Hx).
-  - right. exact P1.
-Qed.
-
 Lemma tok_colrange : forall a1 c1 a2 c2 s res,
-  (ends_word is_alnum (render (TColRange a1 c1 a2 c2)) = true -> sep_start s) ->
+  tok_valid is_alnum (TColRange a1 c1 a2 c2) = true ->
+  (ends_word is_alnum (render (TColRange a1 c1 a2 c2)) = true -> follow_ok (render (TColRange a1 c1 a2 c2)) s) ->
   run off (render (TColRange a1 c1 a2 c2) ++ s) res
-  = run off s (res ++ render (TColRange a1 c1 a2 c2)).
+  = run off s (res ++ render (translate_clip off (TColRange a1 c1 a2 c2))).
 Proof.
-  intros a1 c1 a2 c2 s res Hs. cbn [render] in *.
-  assert (Hsep : sep_start s).
-  { apply Hs. rewrite !app_assoc. apply ends_word_app; [apply letters_nonempty|apply letters_word]. }
-  replace ((dollar a1 ++ letters c1 ++ [ch_colon] ++ dollar a2 ++ letters c2) ++ s)
-    with ((dollar a1 ++ letters c1) ++ [ch_colon] ++ (dollar a2 ++ letters c2) ++ s)
-    by (rewrite <- !app_assoc; reflexivity).
-  rewrite tok_word_sep_word; try assumption.
-  - f_equal. rewrite <- !app_assoc. reflexivity.
+  intros a1 c1 a2 c2 s res Hv Hs. cbn [tok_valid] in Hv. apply andb_prop in Hv as [H1 H2].
+  unfold MAX_COLUMNS in H1, H2. apply N.ltb_lt in H1, H2.
+  assert (Er : render (TColRange a1 c1 a2 c2)
+               = (dollar a1 ++ letters c1 ++ [ch_colon]) ++ (dollar a2 ++ letters c2)) by (cbn [render]; lnorm).
+  rewrite Er in Hs.
+  assert (W2 : forallb wordch (dollar a2 ++ letters c2) = true)
+    by (rewrite forallb_app, dollar_word, letters_word; reflexivity).
+  assert (N2 : dollar a2 ++ letters c2 <> []) by (apply app_nonempty_r, letters_nonempty).
+  destruct (follow_inert (dollar a1 ++ letters c1 ++ [ch_colon]) _ s N2 W2) as [Hsep Hci]; [|exact Hs|].
+  { rewrite !rev_app_distr. cbn. apply wordch_false_ascii; reflexivity. }
+  replace (render (TColRange a1 c1 a2 c2) ++ s)
+    with ((dollar a1 ++ letters c1) ++ ch_colon :: (dollar a2 ++ letters c2) ++ s) by (cbn [render]; lnorm).
+  rewrite (tok_range _ _ s res (tok_in_range off (TColRange a1 c1 a2 c2))
+             (render (translate off (TColRange a1 c1 a2 c2)))); try assumption.
+  - f_equal. f_equal. unfold translate_clip. destruct (tok_in_range off (TColRange a1 c1 a2 c2)); [reflexivity|].
+    cbn [render]. lnorm.
   - apply app_nonempty_r, letters_nonempty.
   - rewrite forallb_app, dollar_word, letters_word. reflexivity.
   - apply ocn_parse_letters_only.
-  - plain_tac.
-  - discriminate.
-  - discriminate.
-  - apply app_nonempty_r, letters_nonempty.
-  - rewrite forallb_app, dollar_word, letters_word. reflexivity.
   - apply ocn_parse_letters_only.
+  - apply owr_colrange; assumption.
 Qed.
 
 Lemma tok_rowrange : forall a1 r1 a2 r2 s res,
-  (ends_word is_alnum (render (TRowRange a1 r1 a2 r2)) = true -> sep_start s) ->
+  tok_valid is_alnum (TRowRange a1 r1 a2 r2) = true ->
+  (ends_word is_alnum (render (TRowRange a1 r1 a2 r2)) = true -> follow_ok (render (TRowRange a1 r1 a2 r2)) s) ->
   run off (render (TRowRange a1 r1 a2 r2) ++ s) res
-  = run off s (res ++ render (TRowRange a1 r1 a2 r2)).
+  = run off s (res ++ render (translate_clip off (TRowRange a1 r1 a2 r2))).
 Proof.
-  intros a1 r1 a2 r2 s res Hs. cbn [render] in *.
-  assert (Hsep : sep_start s).
-  { apply Hs. rewrite !app_assoc. apply ends_word_app; [apply dec_nonempty|apply dec_word]. }
-  replace ((dollar a1 ++ dec (r1 + 1) ++ [ch_colon] ++ dollar a2 ++ dec (r2 + 1)) ++ s)
-    with ((dollar a1 ++ dec (r1 + 1)) ++ [ch_colon] ++ (dollar a2 ++ dec (r2 + 1)) ++ s)
-    by (rewrite <- !app_assoc; reflexivity).
-  rewrite tok_word_sep_word; try assumption.
-  - f_equal. rewrite <- !app_assoc. reflexivity.
+  intros a1 r1 a2 r2 s res Hv Hs. cbn [tok_valid] in Hv. apply andb_prop in Hv as [H1 H2].
+  unfold MAX_ROWS in H1, H2. apply N.ltb_lt in H1, H2.
+  assert (Er : render (TRowRange a1 r1 a2 r2)
+               = (dollar a1 ++ dec (r1 + 1) ++ [ch_colon]) ++ (dollar a2 ++ dec (r2 + 1))) by (cbn [render]; lnorm).
+  rewrite Er in Hs.
+  assert (W2 : forallb wordch (dollar a2 ++ dec (r2 + 1)) = true)
+    by (rewrite forallb_app, dollar_word, dec_word; reflexivity).
+  assert (N2 : dollar a2 ++ dec (r2 + 1) <> []) by (apply app_nonempty_r, dec_nonempty).
+  destruct (follow_inert (dollar a1 ++ dec (r1 + 1) ++ [ch_colon]) _ s N2 W2) as [Hsep Hci]; [|exact Hs|].
+  { rewrite !rev_app_distr. cbn. apply wordch_false_ascii; reflexivity. }
+  replace (render (TRowRange a1 r1 a2 r2) ++ s)
+    with ((dollar a1 ++ dec (r1 + 1)) ++ ch_colon :: (dollar a2 ++ dec (r2 + 1)) ++ s) by (cbn [render]; lnorm).
+  rewrite (tok_range _ _ s res (tok_in_range off (TRowRange a1 r1 a2 r2))
+             (render (translate off (TRowRange a1 r1 a2 r2)))); try assumption.
+  - f_equal. f_equal. unfold translate_clip. destruct (tok_in_range off (TRowRange a1 r1 a2 r2)); [reflexivity|].
+    cbn [render]. lnorm.
   - apply app_nonempty_r, dec_nonempty.
   - rewrite forallb_app, dollar_word, dec_word. reflexivity.
   - apply ocn_parse_digits_only.
-  - plain_tac.
-  - discriminate.
-  - discriminate.
-  - apply app_nonempty_r, dec_nonempty.
-  - rewrite forallb_app, dollar_word, dec_word. reflexivity.
   - apply ocn_parse_digits_only.
+  - apply owr_rowrange; assumption.
 Qed.
 
 (* word followed by '!' or '(' : never translated, whatever it looks like *)
@@ -1020,6 +1389,7 @@ Proof.
   - rewrite run_other by exact Px. f_equal. rewrite <- app_assoc. reflexivity.
   - cbn. exact (proj1 Px).
   - left. cbn. destruct Hx; subst x; reflexivity.
+  - apply no_colon_inert. destruct Hx; subst x; reflexivity.
 Qed.
 
 Lemma uname_word : forall n, forallb (uname_char is_alnum) n = true -> forallb wordch n = true.
@@ -1037,38 +1407,34 @@ Proof.
 Qed.
 
 Lemma tok_sheetrange : forall n1 n2 s res,
-  tok_valid is_alnum (TSheetRange n1 n2) = true -> is_cell_name n1 = false ->
+  tok_valid is_alnum (TSheetRange n1 n2) = true ->
   run off (render (TSheetRange n1 n2) ++ s) res = run off s (res ++ render (TSheetRange n1 n2)).
 Proof.
-  intros n1 n2 s res Hv H3. cbn [tok_valid] in Hv.
+  intros n1 n2 s res Hv. cbn [tok_valid] in Hv.
   apply andb_prop in Hv as [Hv U2]. apply andb_prop in Hv as [Hv N2].
   apply andb_prop in Hv as [N1 U1]. cbn [render].
-  replace ((n1 ++ [ch_colon] ++ n2 ++ [ch_bang]) ++ s) with (n1 ++ [ch_colon] ++ (n2 ++ [ch_bang] ++ s))
-    by (rewrite <- !app_assoc; reflexivity).
-  rewrite run_word_inert.
-  - cbn [app]. rewrite run_other by plain_tac.
-    rewrite tok_word_call; [|apply nonempty_ne; exact N2|apply uname_word; exact U2|right; reflexivity].
-    f_equal. rewrite <- !app_assoc. reflexivity.
-  - apply nonempty_ne. exact N1.
-  - apply uname_word. exact U1.
-  - cbn. apply wordch_false_ascii; reflexivity.
-  - right. apply ocn_parse_not_cell; [apply uname_no_dollar; exact U1|exact H3].
+  replace ((n1 ++ [ch_colon] ++ n2 ++ [ch_bang]) ++ s) with (n1 ++ ch_colon :: n2 ++ ch_bang :: s) by lnorm.
+  rewrite run_word_sheet3d;
+    [|apply nonempty_ne; exact N1|apply uname_word; exact U1|apply nonempty_ne; exact N2|apply uname_word; exact U2].
+  rewrite run_other by plain_tac.
+  rewrite tok_word_call; [|apply nonempty_ne; exact N2|apply uname_word; exact U2|right; reflexivity].
+  f_equal. lnorm.
 Qed.
 
 Lemma tok_name : forall n s res,
   tok_valid is_alnum (TName n) = true ->
-  (ends_word is_alnum (render (TName n)) = true -> sep_start s) ->
+  (ends_word is_alnum (render (TName n)) = true -> follow_ok (render (TName n)) s) ->
   run off (render (TName n) ++ s) res = run off s (res ++ render (TName n)).
 Proof.
   intros n s res Hv Hs. cbn [tok_valid] in Hv. apply andb_prop in Hv as [Hv C].
   apply andb_prop in Hv as [Ne D]. apply negb_true_iff in C. cbn [render] in *.
-  assert (Hsep : sep_start s).
-  { apply Hs. apply (ends_word_app []); [apply nonempty_ne; exact Ne|apply dname_word; exact D]. }
+  destruct (follow_inert [] n s (nonempty_ne _ Ne) (dname_word _ D) I Hs) as [Hsep Hci].
   apply run_word_inert.
   - apply nonempty_ne. exact Ne.
   - apply dname_word. exact D.
   - apply sep_start_head_fails. exact Hsep.
   - right. apply ocn_parse_not_cell; [apply dname_no_dollar; exact D|exact C].
+  - exact Hci.
 Qed.
 
 Lemma digits_ok_inv : forall l, digits_ok l = true ->
@@ -1081,7 +1447,7 @@ Qed.
 
 Lemma tok_num : forall ip fp ex s res,
   tok_valid is_alnum (TNum ip fp ex) = true ->
-  (ends_word is_alnum (render (TNum ip fp ex)) = true -> sep_start s) ->
+  (ends_word is_alnum (render (TNum ip fp ex)) = true -> follow_ok (render (TNum ip fp ex)) s) ->
   run off (render (TNum ip fp ex) ++ s) res = run off s (res ++ render (TNum ip fp ex)).
 Proof.
   intros ip fp ex s res Hv Hs. cbn [tok_valid] in Hv.
@@ -1104,16 +1470,19 @@ Proof.
   destruct ex as [[[neg|] e]|].
   - (* signed exponent: ip.fpE  sign  digits *)
     destruct (digits_ok_inv _ Hex) as (de & et & Ee & Hde & De).
-    assert (Hsep : sep_start s).
-    { apply Hs. change (ch_E :: (if neg then ch_minus else ch_plus) :: e)
-        with ([ch_E; if neg then ch_minus else ch_plus] ++ e).
-      rewrite !app_assoc. apply ends_word_app; [rewrite Ee; discriminate|apply digits_word; exact De]. }
+    assert (Er : ip ++ fpp ++ ch_E :: (if neg then ch_minus else ch_plus) :: e
+                 = (ip ++ fpp ++ [ch_E; if neg then ch_minus else ch_plus]) ++ e) by lnorm.
+    rewrite Er in Hs.
+    destruct (follow_inert (ip ++ fpp ++ [ch_E; if neg then ch_minus else ch_plus]) e s) as [Hsep Hci];
+      [rewrite Ee; discriminate|apply digits_word; exact De| |exact Hs|].
+    { rewrite !rev_app_distr. cbn. destruct neg; apply wordch_false_ascii; reflexivity. }
     destruct (Hw1 [ch_E]) as (A1 & A2 & A3); [word_tac|].
     set (sg := if neg then ch_minus else ch_plus).
     assert (Psg : plain_char sg) by (unfold sg; destruct neg; plain_tac).
     replace ((ip ++ fpp ++ ch_E :: sg :: e) ++ s) with ((ip ++ fpp ++ [ch_E]) ++ sg :: (e ++ s))
       by (rewrite <- !app_assoc; reflexivity).
-    rewrite run_word_inert; [|exact A1|exact A2|cbn; exact (proj1 Psg)|right; exact A3].
+    rewrite run_word_inert; [|exact A1|exact A2|cbn; exact (proj1 Psg)|right; exact A3|
+      apply no_colon_inert; unfold sg; destruct neg; reflexivity].
     rewrite run_other by exact Psg.
     rewrite run_word_inert.
     + f_equal. rewrite <- !app_assoc. reflexivity.
@@ -1121,18 +1490,17 @@ Proof.
     + apply digits_word. exact De.
     + apply sep_start_head_fails. exact Hsep.
     + right. rewrite Ee. apply ocn_parse_digit_start. exact Hde.
+    + exact Hci.
   - (* unsigned exponent: one word *)
     destruct (digits_ok_inv _ Hex) as (de & et & Ee & Hde & De).
     assert (We : forallb wordch (ch_E :: e) = true).
     { cbn [forallb]. rewrite (digits_word _ De). rewrite wordch_ascii by reflexivity. reflexivity. }
     destruct (Hw1 (ch_E :: e) We) as (A1 & A2 & A3).
-    assert (Hsep : sep_start s).
-    { apply Hs. apply (ends_word_app []); assumption. }
-    apply run_word_inert; [exact A1|exact A2|apply sep_start_head_fails; exact Hsep|right; exact A3].
+    destruct (follow_inert [] _ s A1 A2 I Hs) as [Hsep Hci].
+    apply run_word_inert; [exact A1|exact A2|apply sep_start_head_fails; exact Hsep|right; exact A3|exact Hci].
   - destruct (Hw1 [] eq_refl) as (A1 & A2 & A3).
-    assert (Hsep : sep_start s).
-    { apply Hs. apply (ends_word_app []); assumption. }
-    apply run_word_inert; [exact A1|exact A2|apply sep_start_head_fails; exact Hsep|right; exact A3].
+    destruct (follow_inert [] _ s A1 A2 I Hs) as [Hsep Hci].
+    apply run_word_inert; [exact A1|exact A2|apply sep_start_head_fails; exact Hsep|right; exact A3|exact Hci].
 Qed.
 
 (* error literals *)
@@ -1147,7 +1515,7 @@ Qed.
 
 Lemma tok_err : forall k s res,
   tok_valid is_alnum (TErr k) = true ->
-  (ends_word is_alnum (render (TErr k)) = true -> sep_start s) ->
+  (ends_word is_alnum (render (TErr k)) = true -> follow_ok (render (TErr k)) s) ->
   run off (render (TErr k) ++ s) res = run off s (res ++ render (TErr k)).
 Proof.
   intros k s res Hv Hs. cbn [tok_valid] in Hv. apply N.ltb_lt in Hv.
@@ -1160,7 +1528,8 @@ Proof.
     change (render (TErr 1)) with [35;68;73;86;47;48;33].
     change ([35;68;73;86;47;48;33] ++ s) with (35 :: [68;73;86] ++ 47 :: ([48] ++ ch_bang :: s)).
     rewrite run_other by plain_tac.
-    rewrite run_word_inert; [|discriminate|word_tac|cbn; apply wordch_false_ascii; reflexivity|right; reflexivity].
+    rewrite run_word_inert; [|discriminate|word_tac|cbn; apply wordch_false_ascii; reflexivity|right; reflexivity|
+      apply no_colon_inert; reflexivity].
     rewrite run_other by plain_tac.
     rewrite tok_word_call; [|discriminate|word_tac|right; reflexivity].
     f_equal. rewrite <- !app_assoc. reflexivity.
@@ -1172,35 +1541,36 @@ Proof.
     apply tok_err_bang; [discriminate|reflexivity|reflexivity].
   - (* #NAME? *)
     change (render (TErr 4)) with ([35] ++ [78;65;77;69;63]) in *.
-    assert (Hsep : sep_start s).
-    { apply Hs. apply ends_word_app; [discriminate|word_tac]. }
+    destruct (follow_inert [35] [78;65;77;69;63] s) as [Hsep Hci];
+      [discriminate|word_tac|cbn; apply wordch_false_ascii; reflexivity|exact Hs|].
     change (([35] ++ [78;65;77;69;63]) ++ s) with (35 :: [78;65;77;69;63] ++ s).
     rewrite run_other by plain_tac.
-    rewrite run_word_inert; [|discriminate|word_tac|apply sep_start_head_fails; exact Hsep|right; reflexivity].
+    rewrite run_word_inert; [|discriminate|word_tac|apply sep_start_head_fails; exact Hsep|right; reflexivity|exact Hci].
     f_equal. rewrite <- !app_assoc. reflexivity.
   - change (render (TErr 5)) with (35 :: [78;85;77] ++ [ch_bang]).
     change ((35 :: [78;85;77] ++ [ch_bang]) ++ s) with (35 :: [78;85;77] ++ ch_bang :: s).
     apply tok_err_bang; [discriminate|reflexivity|reflexivity].
   - (* #N/A *)
     change (render (TErr 6)) with ([35;78;47] ++ [65]) in *.
-    assert (Hsep : sep_start s).
-    { apply Hs. apply ends_word_app; [discriminate|word_tac]. }
+    destruct (follow_inert [35;78;47] [65] s) as [Hsep Hci];
+      [discriminate|word_tac|cbn; apply wordch_false_ascii; reflexivity|exact Hs|].
     change (([35;78;47] ++ [65]) ++ s) with (35 :: [78] ++ 47 :: ([65] ++ s)).
     rewrite run_other by plain_tac.
-    rewrite run_word_inert; [|discriminate|word_tac|cbn; apply wordch_false_ascii; reflexivity|right; reflexivity].
+    rewrite run_word_inert; [|discriminate|word_tac|cbn; apply wordch_false_ascii; reflexivity|right; reflexivity|
+      apply no_colon_inert; reflexivity].
     rewrite run_other by plain_tac.
-    rewrite run_word_inert; [|discriminate|word_tac|apply sep_start_head_fails; exact Hsep|right; reflexivity].
+    rewrite run_word_inert; [|discriminate|word_tac|apply sep_start_head_fails; exact Hsep|right; reflexivity|exact Hci].
     f_equal. rewrite <- !app_assoc. reflexivity.
 Qed.
 
 (* every token of the grammar: the scanner consumes exactly its text and emits the text of
    the token translated (references that stay on the sheet) or unchanged (everything else) *)
 Lemma token_run : forall t s res,
-  tok_valid is_alnum t = true -> no3d t = true ->
-  (ends_word is_alnum (render t) = true -> sep_start s) ->
+  tok_valid is_alnum t = true ->
+  (ends_word is_alnum (render t) = true -> follow_ok (render t) s) ->
   run off (render t ++ s) res = run off s (res ++ render (translate_clip off t)).
 Proof.
-  intros t s res Hv H3 Hs. destruct t as [ca c ra r|a1 c1 a2 c2|a1 r1 a2 r2|q n|n1 n2|n|n|ip fp ex|str|b|c|k].
+  intros t s res Hv Hs. destruct t as [ca c ra r|a1 c1 a2 c2|a1 r1 a2 r2|q n|n1 n2|n|n|ip fp ex|str|b|c|k].
   - apply tok_ref; assumption.
   - apply tok_colrange; assumption.
   - apply tok_rowrange; assumption.
@@ -1215,8 +1585,7 @@ Proof.
       rewrite run_other by plain_tac. f_equal. lnorm.
     + rewrite <- app_assoc. cbn [app]. rewrite tok_word_call; [reflexivity|apply nonempty_ne; exact Ne|
         apply uname_word; exact Hn|right; reflexivity].
-  - cbn [translate_clip]. apply tok_sheetrange; [exact Hv|]. cbn [no3d] in H3.
-    apply negb_true_iff in H3. exact H3.
+  - cbn [translate_clip]. apply tok_sheetrange. exact Hv.
   - cbn [translate_clip]. cbn [tok_valid] in Hv. apply andb_prop in Hv as [Ne Hn]. cbn [render].
     rewrite <- app_assoc. cbn [app]. rewrite tok_word_call; [reflexivity|apply nonempty_ne; exact Ne|
       apply uname_word; exact Hn|left; reflexivity].
@@ -1268,90 +1637,52 @@ Qed.
 
 Lemma formula_run : forall ts res,
   forallb (tok_valid is_alnum) ts = true -> adjacent_ok is_alnum ts = true ->
-  forallb no3d ts = true ->
+  colon_ok is_alnum ts = true ->
   run off (render_all ts) res = Ok (res ++ render_all (map (translate_clip off) ts)).
 Proof.
-  induction ts as [|t ts IH]; intros res Hv Ha H3.
+  induction ts as [|t ts IH]; intros res Hv Ha Hc.
   - cbn. rewrite app_nil_r. reflexivity.
-  - cbn [forallb] in Hv, H3. apply andb_prop in Hv as [Hv Hvs]. apply andb_prop in H3 as [H3 H3s].
+  - cbn [forallb] in Hv. apply andb_prop in Hv as [Hv Hvs].
+    cbn [colon_ok] in Hc. apply andb_prop in Hc as [Hc Hcs].
     unfold render_all. cbn [map concat]. fold (render_all ts).
     fold (render_all (map (translate_clip off) ts)).
-    rewrite token_run; [| exact Hv | exact H3 |].
-    + rewrite IH; [rewrite app_assoc; reflexivity|exact Hvs| |exact H3s].
+    rewrite token_run; [| exact Hv |].
+    + rewrite IH; [rewrite app_assoc; reflexivity|exact Hvs| |exact Hcs].
       destruct ts as [|b ts']; [reflexivity|]. cbn [adjacent_ok] in Ha.
       apply andb_prop in Ha as [_ Ha]. exact Ha.
-    + intros He. destruct ts as [|b ts']; [exact I|].
+    + intros He. split; [|exact Hc]. destruct ts as [|b ts']; [exact I|].
       cbn [adjacent_ok] in Ha. apply andb_prop in Ha as [Ha _]. rewrite He in Ha.
       unfold render_all. cbn [map concat]. apply starts_sep_start. exact Ha.
 Qed.
 End Token.
 
-Lemma no3d_of_known : forall off ts, known_at off ts = None -> forallb no3d ts = true.
-Proof.
-  induction ts as [|t ts IH]; intros H; [reflexivity|]. cbn [known_at] in H. cbn [forallb].
-  destruct (known_token_at off t) eqn:K; [discriminate H|]. rewrite (IH H), andb_true_r.
-  destruct t; try reflexivity. cbn [known_token_at known_token] in K. cbn [no3d].
-  destruct (is_cell_name n1); [discriminate K|reflexivity].
-Qed.
-
-Lemma known_at_of_known : forall off ts, known_C15 ts = None -> known_at off ts = None.
-Proof.
-  induction ts as [|t ts IH]; intros H; [reflexivity|]. cbn [known_C15] in H. cbn [known_at].
-  destruct (known_token t) eqn:K; [discriminate H|]. rewrite (IH H).
-  destruct t; cbn [known_token_at]; try (rewrite K; reflexivity);
-    cbn [known_token] in K; destruct (a1 && a2); try discriminate K; reflexivity.
-Qed.
-
-Lemma move_zero : forall a x, move a x 0 = x.
-Proof. intros a x. unfold move. destruct a; lia. Qed.
-
-(* inside in_range and outside the known classes, what the code does is the translation *)
+(* inside in_range, what the code does is the translation *)
 Lemma clip_is_translate : forall off ts,
-  forallb (tok_in_range off) ts = true -> known_at off ts = None ->
-  map (translate_clip off) ts = map (translate off) ts.
+  forallb (tok_in_range off) ts = true -> map (translate_clip off) ts = map (translate off) ts.
 Proof.
-  induction ts as [|t ts IH]; intros Hr Hk; [reflexivity|].
-  cbn [forallb] in Hr. apply andb_prop in Hr as [Hr Hrs]. cbn [known_at] in Hk.
-  destruct (known_token_at off t) eqn:K; [discriminate Hk|]. cbn [map]. rewrite (IH Hrs Hk).
-  f_equal. destruct t; try reflexivity.
-  - cbn [translate_clip]. rewrite Hr. reflexivity.
-  - cbn [known_token_at] in K. cbn [translate_clip translate].
-    destruct ((a1 && a2) || (snd off =? 0)%Z) eqn:E; [|discriminate K].
-    apply orb_prop in E as [E|E].
-    + apply andb_prop in E as [E1 E2]. subst. reflexivity.
-    + apply Z.eqb_eq in E. rewrite E, !move_zero. reflexivity.
-  - cbn [known_token_at] in K. cbn [translate_clip translate].
-    destruct ((a1 && a2) || (fst off =? 0)%Z) eqn:E; [|discriminate K].
-    apply orb_prop in E as [E|E].
-    + apply andb_prop in E as [E1 E2]. subst. reflexivity.
-    + apply Z.eqb_eq in E. rewrite E, !move_zero. reflexivity.
+  induction ts as [|t ts IH]; intros Hr; [reflexivity|].
+  cbn [forallb] in Hr. apply andb_prop in Hr as [Hr Hrs]. cbn [map]. rewrite (IH Hrs).
+  f_equal. destruct t; try reflexivity; cbn [translate_clip]; rewrite Hr; reflexivity.
 Qed.
 
 (* MAIN (total form): every formula of the grammar, every offset between two cells of the sheet *)
 Theorem translate_total : forall ts off,
-  wf_formula is_alnum ts = true -> off_ok off = true -> forallb no3d ts = true ->
+  wf_formula is_alnum ts = true -> off_ok off = true ->
   rcn (render_all ts) off = Ok (render_all (map (translate_clip off) ts)).
 Proof.
-  intros ts off Hwf Hoff H3. unfold wf_formula in Hwf. apply andb_prop in Hwf as [Hv Ha].
-  rewrite rcn_run. rewrite (formula_run off Hoff ts [] Hv Ha H3). reflexivity.
+  intros ts off Hwf Hoff. unfold wf_formula in Hwf. apply andb_prop in Hwf as [Hwf Hc].
+  apply andb_prop in Hwf as [Hv Ha].
+  rewrite rcn_run. rewrite (formula_run off Hoff ts [] Hv Ha Hc). reflexivity.
 Qed.
 
-(* MAIN: the quantifier of the property over formulas x offsets *)
-Theorem translate_correct_at : forall ts off,
-  wf_formula is_alnum ts = true -> in_range ts off -> known_at off ts = None ->
-  rcn (render_all ts) off = Ok (render_all (map (translate off) ts)).
-Proof.
-  intros ts off Hwf Hr Hk. unfold in_range, in_rangeb in Hr. apply andb_prop in Hr as [Hoff Hr].
-  rewrite translate_total; [|exact Hwf|exact Hoff|exact (no3d_of_known off ts Hk)].
-  rewrite (clip_is_translate off ts Hr Hk). reflexivity.
-Qed.
-
+(* MAIN: the quantifier of the property over formulas x offsets — no known class left *)
 Theorem translate_correct : forall ts off,
-  wf_formula is_alnum ts = true -> in_range ts off -> known_C15 ts = None ->
+  wf_formula is_alnum ts = true -> in_range ts off ->
   rcn (render_all ts) off = Ok (render_all (map (translate off) ts)).
 Proof.
-  intros ts off Hwf Hr Hk. apply translate_correct_at; [exact Hwf|exact Hr|].
-  apply known_at_of_known. exact Hk.
+  intros ts off Hwf Hr. unfold in_range, in_rangeb in Hr. apply andb_prop in Hr as [Hoff Hr].
+  rewrite translate_total; [|exact Hwf|exact Hoff].
+  rewrite (clip_is_translate off ts Hr). reflexivity.
 Qed.
 
 (* ------------------------------------------------------------------ groups *)
@@ -1397,11 +1728,10 @@ Proof.
   - cbn [cell_okb] in H. rewrite fm_get_enc. destruct (find_group seen si) as [g|]; [|reflexivity].
     cbn [enc_group snd]. change (contains (g_start g, g_end g) p) with (in_box (g_start g) (g_end g) p).
     destruct (in_box (g_start g) (g_end g) p); [|reflexivity].
-    unfold member_okb in H. apply andb_prop in H as [H Hk]. apply andb_prop in H as [Hwf Hr].
-    destruct (known_at (member_offset g p) (g_tokens g)) eqn:K; [discriminate Hk|].
+    unfold member_okb in H. apply andb_prop in H as [Hwf Hr].
     change (Z.of_N (fst p) - Z.of_N (fst (g_master g)), Z.of_N (snd p) - Z.of_N (snd (g_master g)))%Z
       with (member_offset g p).
-    rewrite (translate_correct_at (g_tokens g) (member_offset g p) Hwf Hr K). reflexivity.
+    rewrite (translate_correct (g_tokens g) (member_offset g p) Hwf Hr). reflexivity.
 Qed.
 
 Lemma run_cells_spec : forall cs seen, sheet_okb is_alnum seen cs = true ->
@@ -1491,7 +1821,6 @@ Definition ex_tokens : list token :=
 
 Example translate_correct_nonvacuous :
   wf_formula ascii_alnum ex_tokens = true /\ in_range ex_tokens (5, 2)%Z /\
-  known_C15 ex_tokens = None /\
   render_all (map (translate (5, 2)%Z) ex_tokens) <> render_all ex_tokens /\
   replace_cell_names ascii_alnum (render_all ex_tokens) (5, 2)%Z
     = Ok (render_all (map (translate (5, 2)%Z) ex_tokens)).
@@ -1521,36 +1850,38 @@ Example edge_behaviour :
   replace_cell_names ascii_alnum [65;50] (9223372036854775807, 0)%Z = Panic.
 Proof. vm_compute. repeat split. Qed.
 
-(* remaining known classes *)
-Definition wt_whole_cols : list token := [TFunc [83;85;77]; TColRange false 0 false 0; TSym 41].  (* SUM(A:A) *)
+(* the two classes repaired last (whole ranges, 3-D prefix): translated as specified now *)
+Definition wt_whole_cols : list token := [TFunc [83;85;77]; TColRange false 0 true 1; TSym 41].   (* SUM(A:$B) *)
 Definition wt_whole_rows : list token := [TFunc [83;85;77]; TRowRange false 0 false 2; TSym 41].  (* SUM(1:3) *)
 Definition wt_sheet3d : list token := [TSheetRange [81;49] [81;51]; TRef false 0 false 0].        (* Q1:Q3!A1 *)
 
-Theorem refuted_whole_range :
-  exists ts off, wf_formula ascii_alnum ts = true /\ in_range ts off /\
-    known_C15 ts = Some CL_WHOLE /\ known_at off ts = Some CL_WHOLE /\
-    replace_cell_names ascii_alnum (render_all ts) off = Ok (render_all ts) /\
-    render_all ts <> render_all (map (translate off) ts).
-Proof. exists wt_whole_cols, (0, 1)%Z. vm_compute. repeat split; discriminate. Qed.
+Example whole_range_fixed :
+  wf_formula ascii_alnum wt_whole_cols = true /\ in_range wt_whole_cols (0, 1)%Z /\
+  replace_cell_names ascii_alnum (render_all wt_whole_cols) (0, 1)%Z
+    = Ok [83;85;77;40;66;58;36;66;41] /\                                      (* SUM(B:$B) *)
+  wf_formula ascii_alnum wt_whole_rows = true /\ in_range wt_whole_rows (2, 0)%Z /\
+  replace_cell_names ascii_alnum (render_all wt_whole_rows) (2, 0)%Z
+    = Ok [83;85;77;40;51;58;53;41] /\                                         (* SUM(3:5) *)
+  (* leaving the sheet: unchanged as a whole *)
+  replace_cell_names ascii_alnum [65;58;66] (0, -1)%Z = Ok [65;58;66] /\
+  replace_cell_names ascii_alnum [88;70;67;58;88;70;68] (0, 1)%Z = Ok [88;70;67;58;88;70;68] /\
+  (* not ranges: a function or a sheet name after the ':' *)
+  replace_cell_names ascii_alnum [65;58;73;70;40] (0, 1)%Z = Ok [65;58;73;70;40] /\
+  replace_cell_names ascii_alnum [65;58;66;33;67;49] (0, 1)%Z = Ok [65;58;66;33;68;49].
+Proof. vm_compute. repeat split. Qed.
 
-Theorem refuted_whole_range_rows :
-  exists ts off, wf_formula ascii_alnum ts = true /\ in_range ts off /\
-    known_C15 ts = Some CL_WHOLE /\ known_at off ts = Some CL_WHOLE /\
-    replace_cell_names ascii_alnum (render_all ts) off = Ok (render_all ts) /\
-    render_all ts <> render_all (map (translate off) ts).
-Proof. exists wt_whole_rows, (2, 0)%Z. vm_compute. repeat split; discriminate. Qed.
+Example sheet3d_fixed :
+  wf_formula ascii_alnum wt_sheet3d = true /\ in_range wt_sheet3d (1, 0)%Z /\
+  replace_cell_names ascii_alnum (render_all wt_sheet3d) (1, 0)%Z = Ok [81;49;58;81;51;33;65;50].  (* Q1:Q3!A2 *)
+Proof. vm_compute. repeat split. Qed.
 
-(* … but not in the other direction (proved in general: translate_correct_at) *)
-Example whole_range_vertical_ok :
-  known_at (3, 0)%Z wt_whole_cols = None /\ known_at (0, 3)%Z wt_whole_rows = None.
-Proof. vm_compute. split; reflexivity. Qed.
-
-Theorem refuted_sheet3d :
-  exists ts off, wf_formula ascii_alnum ts = true /\ in_range ts off /\
-    known_C15 ts = Some CL_SHEET3D /\
-    replace_cell_names ascii_alnum (render_all ts) off = Ok [81;50;58;81;51;33;65;50] /\   (* Q2:Q3!A2 *)
-    render_all (map (translate off) ts) = [81;49;58;81;51;33;65;50].                         (* Q1:Q3!A2 *)
-Proof. exists wt_sheet3d, (1, 0)%Z. vm_compute. repeat split. Qed.
+(* what the ':' condition of wf_formula excludes: the same text read as two names / two numbers *)
+Example colon_ambiguity :
+  wf_formula ascii_alnum [TName [65]; TSym 58; TName [66]] = false /\
+  wf_formula ascii_alnum [TNum [49] None None; TSym 58; TNum [51] None None] = false /\
+  wf_formula ascii_alnum [TRef false 0 false 0; TSym 58; TRef false 1 false 1] = true /\
+  wf_formula ascii_alnum [TName [114;97;116;101]; TSym 58; TRef false 1 false 1] = true.
+Proof. vm_compute. repeat split. Qed.
 
 (* a sheet: block B2:D4 declared by C3 (the master in the middle, si 1), then a row B6:E6 (si 0,
    i.e. indices in decreasing document order); a member before its master, one outside its ref,
@@ -1580,11 +1911,13 @@ Example group_covers_range_nonvacuous :
   nth_error (spec_cells [] ex_sheet) 9 = Some ((6, 0), [75]).
 Proof. vm_compute. repeat split. Qed.
 
-(* the whole-range class at group level: SUM(A:A) shared along a row *)
-Theorem refuted_group_whole_range :
-  exists cs, sheet_okb ascii_alnum [] cs = false /\
-    run_cells ascii_alnum [] (map encode_cell cs) <> Ok (spec_cells [] cs).
-Proof.
-  exists [SMaster (mkGroup 0 (1, 1) (1, 1) (1, 3) wt_whole_cols); SMember (1, 2) 0 []].
-  vm_compute. split; [reflexivity|discriminate].
-Qed.
+(* SUM(A:A) shared along a row: every member gets its own column *)
+Example group_whole_range_fixed :
+  sheet_okb ascii_alnum [] [SMaster (mkGroup 0 (1, 1) (1, 1) (1, 3) [TFunc [83;85;77]; TColRange false 0 false 0; TSym 41]);
+                            SMember (1, 2) 0 []; SMember (1, 3) 0 []] = true /\
+  run_cells ascii_alnum [] (map encode_cell
+    [SMaster (mkGroup 0 (1, 1) (1, 1) (1, 3) [TFunc [83;85;77]; TColRange false 0 false 0; TSym 41]);
+     SMember (1, 2) 0 []; SMember (1, 3) 0 []])
+  = Ok [((1, 1), [83;85;77;40;65;58;65;41]); ((1, 2), [83;85;77;40;66;58;66;41]);
+        ((1, 3), [83;85;77;40;67;58;67;41])].
+Proof. vm_compute. split; reflexivity. Qed.
